@@ -212,7 +212,21 @@ func c20Prop(c *Ctx) {
 			c.Res.Samples = append(c.Res.Samples, in)
 		}
 	}
+	// the recorded finding (same defect as C07/C08 duplicate-path-import): an unedited canonical file
+	// that imports one path under two names
+	{
+		in := c20Input{Files: []c20File{{Name: "f0.go", Src: c20DupPath}, {Name: "f1.go", Src: c20Pool[5]}}}
+		c.Res.Evaluations++
+		if key, what := c20Check(c, in); key != "" {
+			if key == "c20-bytes" {
+				key = "duplicate-path-import"
+			}
+			c.Res.fail(key, what, in)
+		}
+	}
 }
+
+const c20DupPath = "package pkg\n\nimport (\n\t\"net/url\"\n\turlpkg \"net/url\"\n)\n\nvar _ = url.Parse\n\nvar _ = urlpkg.QueryEscape\n"
 
 func init() {
 	props["C20"] = c20Prop
